@@ -8,7 +8,7 @@ type Value struct {
 
 // EvalFuncs supplies what the attribute evaluator needs from the spec.
 type EvalFuncs struct {
-	Token func(pos, term int) Value              // value the lexer gave to the token
+	Token func(pos, term int) Value          // value the lexer gave to the token
 	Rule  func(rule int, kids []Value) Value // value of the lhs given the rhs values
 }
 
